@@ -88,9 +88,9 @@ func envInt(k string, def int) int {
 
 // depth is the history length bound of the tier (C05_DEPTH: development override).
 func depth() int {
-	d := 5
+	d := 6
 	if ev.Thorough() {
-		d = 7
+		d = 8
 	}
 	return envInt("C05_DEPTH", d)
 }
@@ -219,7 +219,7 @@ func TestVerifC05(t *testing.T) {
 	vars := activeVariants()
 
 	r.Rule(fmt.Sprintf("every history of exactly d=%d steps (all shorter histories are its prefixes; each distinct prefix is observed once) over the alphabet "+
-		"{A+ A.append, Ac A.commit, Ax A.abort, At A.timeout (virtual clock past A's 60s transaction timeout: the broker aborts), B+ B.append, Bc B.commit, Bx B.abort, N+ non-transactional append} "+
+		"{A+ A.append, Ac A.commit, Ax A.abort, At A.timeout (virtual clock past A's 5 min transaction timeout: the broker aborts), B+ B.append, Bc B.commit, Bx B.abort, N+ non-transactional append} "+
 		"on one partition of a fresh 1-broker kfake cluster in its own synctest bubble; commit/abort/timeout are enabled only with an open transaction, an append opens one if none; "+
 		"A and B are kgo transactional clients (BeginTransaction/ProduceSync/EndTransaction), N a plain idempotent kgo client, driven sequentially; appends alternate between batches of one and two records. "+
 		"After every step one fresh ReadCommitted kgo consumer per variant ({large: FetchMaxBytes=FetchMaxPartitionBytes=1 MiB; part1: FetchMaxPartitionBytes=1 = one batch per response; part170: FetchMaxPartitionBytes=170 = two batches per response; "+
